@@ -12,7 +12,7 @@ pub struct Factors(pub usize, pub Vec<Rc<String>>);
 
 impl cmp::PartialOrd for Factors {
     fn partial_cmp(&self, other: &Factors) -> Option<cmp::Ordering> {
-        Some(self.0.cmp(&other.0))
+        Some(self.cmp(other))
     }
 }
 
